@@ -76,7 +76,22 @@ def register(api):
         vals["AS_MTU_BITS"] = field_bits(ae, "mtu", "AsEntry")[0]
         # the take_while form of the associated data (the model has both forms; the tie is that the code
         # still locates the entry by value equality)
-        need(re.search(r"\.take_while\(\|e\|\s*e\.entry\s*!=\s*\*self\)", seg), "AsEntry::associated_data take_while(e.entry != *self)")
+        # How the entry's own position is located.  The closure of the `take_while` is *data*: it is classified
+        # and handed to Lean (`ASSOC_STOP_KIND`: 1 = by value of the whole AsEntry, `e.entry != *self` – what
+        # `Model/Signed.assocTW` mirrors; 2 = by local ISD-AS only; 0 = anything else), so that a changed
+        # closure breaks the theorem `assoc_stop_by_value` (and the correspondence) instead of the extraction.
+        m = need(re.search(r"fn associated_data\b(.*?)\n    pub fn ", seg, re.S), "AsEntry::associated_data")
+        body_ad = m.group(1)
+        m = need(re.search(r"\.take_while\(\s*(?:move\s*)?\|\s*(\w+)\s*\|\s*(.*?)\)\s*\.flat_map", body_ad, re.S),
+                 "take_while(..).flat_map(..) in AsEntry::associated_data")
+        var, cond = m.group(1), " ".join(m.group(2).split())
+        if re.fullmatch(re.escape(var) + r"\.entry\s*!=\s*\*self", cond):
+            vals["ASSOC_STOP_KIND"] = 1
+        elif re.fullmatch(re.escape(var) + r"\.entry\.local\s*!=\s*(\*?self\.local|local)", cond):
+            vals["ASSOC_STOP_KIND"] = 2
+        else:
+            vals["ASSOC_STOP_KIND"] = 0
+        vals["ASSOC_STOP_EXPR"] = cond
 
         rpc = api.strip_comments(api.read(f_rpc))
         m = need(re.search(r"hop_field\.mac\.len\(\)\s*!=\s*(\d+)", rpc), "MAC length check in SegmentHopField::try_from_rpc")
@@ -200,7 +215,10 @@ def register(api):
 
         body = "namespace ScionVerif.Generated.Signed\n"
         for k, v in vals.items():
-            body += f"def {k} : Nat := {v}\n"
+            if isinstance(v, str):
+                body += f"-- {k}: {v}\n"
+            else:
+                body += f"def {k} : Nat := {v}\n"
         body += "end ScionVerif.Generated.Signed\n"
         srcs = [f_seg, f_rpc, f_sm, f_path, f_meta, f_cp, f_cr, f_dm, f"prost-types-{ver}/src/lib.rs"]
         return api.write_lean("Signed", body, srcs), vals
